@@ -18,7 +18,8 @@ LEVEL = "exploration"
 RULE = (
     "interleave: 3-12 textual snapshot() sites in one or two files, placed in plain functions, two-per-line "
     "lambdas, two calls on one line of one function, nested functions, list comprehensions, helper functions "
-    "receiving the snapshot, module-level names shared by the tests; operations <=, >=, in, [key]==, ==; each "
+    "receiving the snapshot, module-level names shared by the tests, calls whose returned objects are collected and "
+    "compared only after the same call was evaluated again; operations <=, >=, in, [key]==, ==; each "
     "site owns a disjoint value range (site i only ever sees 1000*i..1000*i+999, and == sites one value) and "
     "is evaluated m >= 1 times in a generated interleaving replayed by a script loop. Oracle: an independent "
     "per-site aggregation of the script (max / min / distinct members / key map) must equal the value found at "
@@ -32,7 +33,7 @@ RULE = (
 ASSUMPTIONS = ["arguments are deterministic except in the reeval arm"]
 
 NS = dict(vars(vf_prelude))
-STYLES = ["func", "lambda_pair", "same_line_pair", "nested", "comprehension", "helper", "module"]
+STYLES = ["func", "lambda_pair", "same_line_pair", "nested", "comprehension", "helper", "module", "deferred"]
 OPS = ["le", "ge", "in", "getitem", "eq"]
 
 
@@ -43,7 +44,7 @@ def cmp_src(op, x, S):
 
 def render_file(sites, prev_texts, file_index):
     """sites: list of dicts {id, op, style}.  returns (source, site ids in source order)"""
-    lines = ["from inline_snapshot import snapshot", "", "CMP = {}", "",
+    lines = ["from inline_snapshot import snapshot", "", "CMP = {}", "FLUSH = []", "",
              "def helper(op, x, s):",
              "    if op == 'le': assert x <= s",
              "    elif op == 'ge': assert x >= s",
@@ -89,6 +90,14 @@ def render_file(sites, prev_texts, file_index):
         elif style == "helper":
             lines += [f"def c{sid}(x):", f"    helper({op!r}, x, {snap(sid)})", f"CMP[{sid}] = c{sid}", ""]
             order.append(sid)
+        elif style == "deferred":
+            # the call is evaluated now, the object it returns is compared later (after the next evaluation of
+            # the same call, or when the test ends)
+            lines += [f"P{sid} = []", f"def flush{sid}():", f"    for y, s in P{sid}:",
+                      f"        assert {cmp_src(op, 'y', 's')}", f"    P{sid}.clear()",
+                      f"def c{sid}(x):", f"    P{sid}.append((x, {snap(sid)}))", f"    if len(P{sid}) >= 3:",
+                      f"        flush{sid}()", f"CMP[{sid}] = c{sid}", f"FLUSH.append(flush{sid})", ""]
+            order.append(sid)
         elif style == "module":
             lines += [f"S{sid} = {snap(sid)}", f"def c{sid}(x):", f"    assert {cmp_src(op, 'x', f'S{sid}')}",
                       f"CMP[{sid}] = c{sid}", ""]
@@ -109,8 +118,10 @@ def render(case, prev_texts, script_key="script"):
         # split the script over two tests (module-level sites are thereby shared by the tests)
         half = len(script) // 2
         lines += [f"SCRIPT_A = {script[:half]!r}", f"SCRIPT_B = {script[half:]!r}", "",
-                  "def test_a():", "    for sid, x in SCRIPT_A:", "        CMP[sid](x)", "",
-                  "def test_b():", "    for sid, x in SCRIPT_B:", "        CMP[sid](x)", ""]
+                  "def test_a():", "    for sid, x in SCRIPT_A:", "        CMP[sid](x)",
+                  "    for f in FLUSH:", "        f()", "",
+                  "def test_b():", "    for sid, x in SCRIPT_B:", "        CMP[sid](x)",
+                  "    for f in FLUSH:", "        f()", ""]
         name = f"test_f{f}.py"
         files[name] = "\n".join(lines) + "\n"
         orders[name] = order
